@@ -27,3 +27,23 @@ func sortSort(x *Exec, fr *Frame, st *State, site ssa.Instruction, c *ssa.CallCo
 	x.havocAll(st)
 	return Val{Typ: rt}
 }
+
+// rootIdent is the identifier a modifies target is rooted at (a.f, a.f[*], *a -> "a").
+func rootIdent(e Expr) string {
+	for {
+		switch t := e.(type) {
+		case EIdent:
+			return t.Name
+		case EField:
+			e = t.X
+		case EIndex:
+			e = t.X
+		case EUnary:
+			e = t.X
+		case ESlice:
+			e = t.X
+		default:
+			return ""
+		}
+	}
+}
